@@ -30,3 +30,20 @@ func dbgC06(args []string) int {
 }
 
 func init() { register("dbg-c06", dbgC06) }
+
+func dbgC12(args []string) int {
+	s := newUciSession()
+	s.send("setoption name Use_SEE value true")
+	c1 := s.configLines()
+	s.send("setoption name Use_SEE value false")
+	c2 := s.configLines()
+	fmt.Println(c1["UseSEE"], c2["UseSEE"], len(c1), len(c2))
+	s.mu.Lock()
+	for _, l := range s.lines[:6] {
+		fmt.Printf("%q\n", l)
+	}
+	s.mu.Unlock()
+	return 0
+}
+
+func init() { register("dbg-c12", dbgC12) }
